@@ -17,7 +17,7 @@ func verifEmptyOperand(label string) grammar.IExpressionContext {
 }
 
 // C07: a binary operator whose one operand is empty compiles to something that yields empty - whatever the other operand
-// is *written as* (a number, a string literal, a Boolean, something in parentheses); `&` alone reads empty as ''.
+// is *written as* (a number, a string literal, a Boolean, something in parentheses); `&` alone reads empty as ”.
 func VerifHarness_C07_CompiledOperatorsPropagateEmpty() {
 	ops := []string{"+", "-", "*", "/", "div", "mod", "=", "!=", "<", "<=", ">", ">=", "&"}
 	op := ops[verifrt.Choose("op", len(ops))]
